@@ -182,6 +182,11 @@ func (s *lfsServer) handle(w http.ResponseWriter, r *http.Request) {
 				w.WriteHeader(st)
 				return
 			}
+			if len(oid) == 64 && sha(body) != oid {
+				// like a real LFS server: content that does not hash to the id it is stored under is refused
+				w.WriteHeader(422)
+				return
+			}
 			s.objs[oid] = body
 			w.WriteHeader(200)
 			return
